@@ -147,8 +147,9 @@ def corpus():
         out.append(gram.Spec([C("Expr", True, None), C("Atom", True, 0), C("Const", True, 1), C("Lit", False, 2, [("v", ("ann", "int", ("intRange", 0, 9)))]),
                               C("Neg", False, 0, [("arg", ("cls", 0))]), C("Seq", False, 0, [("xs", ("list", ("cls", 0)))]),
                               C("Pair", False, 1, [("p", ("tuple", ("cls", 0), ("cls", 2)))]),
-                              C("Bag", False, 0, [("ys", ("ann", ("list", ("cls", 1)), ("listSize", 1, 2))), ("u", ("union", ("cls", 2), "bool"))])],
-                             0, [3, 4, 5, 6, 7, 0, 1, 2], expansion))
+                              C("Bag", False, 0, [("ys", ("ann", ("list", ("cls", 1)), ("listSize", 1, 2))), ("u", ("union", ("cls", 2), "bool"))]),
+                              C("Shelf", False, 0, [("zs", ("ann", ("list", ("cls", 0)), ("listSizeNoOps", 1, 2)))])],
+                             0, [3, 4, 5, 6, 7, 8, 0, 1, 2], expansion))
     return out
 
 
